@@ -27,6 +27,31 @@ CHECKS = {
         "design_ref": "DESIGN.md section 5, C01",
         "note": TRUSTED + " Acceptance of texts containing one of 17 ambiguous-upper-case characters is not judged.",
     },
+    "C04": {
+        "technique": "TLA+ spec (Bic, Iso3166) + TLC: bounded edit model MC_BicEdits (both modes) replayed into the "
+                     "library, and trace validation (TraceCalls) of wide drivers",
+        "text": "TLC explores four seed BICs under one wide edit (16 symbols incl. non-ASCII, all country pairs, all "
+                "lengths) and two narrow edits, in both compliance modes, through the length/structure/country stage "
+                "machine: Accept <=> BicValid, Reject(e) => e present, strict => lenient; the ~4.9e4 submitted texts "
+                "x 2 modes x 3 entry points are replayed into the library (count cross-checked with TLC's) and "
+                "validated; wide driver: 7 BICs x every position x 83..127 characters, every length 0..14, 900 "
+                "country pairs, all registry BICs and corruptions, random edits.",
+        "design_ref": "DESIGN.md section 5, C04",
+        "note": TRUSTED + " ISO 3166-1 is the literal 249-code set of spec/Iso3166.tla.",
+    },
+    "C05": {
+        "technique": "TLA+ spec (Iban.Defects / Bic.BicDefects, stage machines) + TLC: bounded models MC_IbanSmall and "
+                     "MC_BicEdits with invariant Reject(e) => e in Defects, replayed into the library; trace "
+                     "validation of multi-defect / non-ASCII drivers incl. constructor-validate-is_valid cross-checks",
+        "text": "Specification level: in every state of both bounded models a rejection names a defect that the "
+                "(liberal) Defects set contains and Valid <=> Defects = {}; implementation level: all model texts "
+                "and ~2e5 (quick) wide events - every country x non-ASCII/control characters at every head position "
+                "and class boundary, multi-defect edits, all short texts, both flags - must raise only library "
+                "exceptions whose class is in Defects, is_valid must return a bool, and constructor / validate() / "
+                "is_valid must agree on every text.",
+        "design_ref": "DESIGN.md section 5, C05",
+        "note": TRUSTED + " The first failing stage is not demanded, only that the class names a present defect.",
+    },
 }
 
 NOT_YET = {
